@@ -677,6 +677,37 @@ pub fn probe_capacity<K: KeyT, V: ValT>(rebuild: &dyn Fn() -> MapSut<K, V>, sut:
             count += 1;
         }
     }
+    // the same through the bulk insertion API: extending by j <= capacity() - len() absent keys (j = 0 included),
+    // with an exact or an understating size hint, performs no allocation
+    {
+        let room = cap - len;
+        if room <= 120 {
+            let mut js = vec![0usize, 1, room / 2, room];
+            js.sort_unstable();
+            js.dedup();
+            for &j in js.iter().filter(|&&j| j <= room) {
+                for exact_hint in [true, false] {
+                    let mut s = rebuild();
+                    let items: Vec<(K, V)> = (0..j).map(|i| (K::make(fresh_id(i), 9000 + i as u32), V::make(9500 + i as u32))).collect();
+                    let hint = if exact_hint { (j, Some(j)) } else { (0, None) };
+                    let (a0, d0) = env::alloc_calls();
+                    s.map.extend(crate::mapsut::HintIter { inner: items.into_iter(), hint });
+                    let (a1, d1) = env::alloc_calls();
+                    if a1 != a0 || d1 != d0 {
+                        return Err(format!(
+                            "extend by {j} absent keys (size hint {:?}) with capacity() - len() = {room} performed {} allocation(s) and {} deallocation(s) (capacity {cap}, len {len})",
+                            hint, a1 - a0, d1 - d0
+                        ));
+                    }
+                    if s.map.len() != len + j || s.map.capacity() < len + j {
+                        return Err(format!("extend by {j} absent keys: len() = {}, capacity() = {}", s.map.len(), s.map.capacity()));
+                    }
+                    s.finish().map_err(|m| format!("after extend by {j} absent keys: {m}"))?;
+                    count += 1;
+                }
+            }
+        }
+    }
     // reserve(n)
     for n in boundary_values(cap) {
         let mut s = rebuild();
